@@ -117,6 +117,11 @@ def se_dump_text(T, opts=None):
     out.append("")
     out.append("read")
     out.append("")
+    trail = opts.get("trail")
+    if trail:
+        # trailing blanks, as editors and exporters leave them (the shipped dumps have them on edge lines)
+        tr = random.Random(f"trail:{opts.get('seed', 0)}")
+        out = [ln + (tr.choice(["", " ", "  ", "\t"]) if (trail == "some" and ln) else (" " if ln else "")) for ln in out]
     return "\n".join(out)
 
 
